@@ -193,7 +193,10 @@ def check_scenario(sc: Dict[str, Any], sym_tables: bool, excl=()) -> Obligation:
             for nm, v in list(env.symbols.items()):
                 SR.assume(z3.And(SR.T(v) > 0, SR.T(v) < 1000))
             ann = MM.build(sc, V)
-            frs = fragment(ann.copy(), return_type="fragment", **_frag_kwargs(sc))
+            # one set of argument objects for every call of the scenario: a later call with the caller's own lists (custom loss
+            # rules, ion types, charges, isotopes) must see what the first call saw
+            shared = _frag_kwargs(sc)
+            frs = fragment(ann.copy(), return_type="fragment", **shared)
             # P1 exactly one ion per key
             got_keys = [(f.ion_type, f.start, f.end, f.charge, f.isotope, float(f.loss)) for f in frs]
             want_keys = expected_keys(sc)
@@ -218,14 +221,18 @@ def check_scenario(sc: Dict[str, Any], sym_tables: bool, excl=()) -> Obligation:
                     fn.why = "unmod_sequence"
                     return False
             # P5 projections
-            masses = fragment(ann.copy(), return_type="mass", **_frag_kwargs(sc))
-            mzs = fragment(ann.copy(), return_type="mz", **_frag_kwargs(sc))
-            labels = fragment(ann.copy(), return_type="label", **_frag_kwargs(sc))
-            ml = fragment(ann.copy(), return_type="mass-label", **_frag_kwargs(sc))
-            zl = fragment(ann.copy(), return_type="mz-label", **_frag_kwargs(sc))
-            cached = Fragmenter(ann.copy(), sc["mono"]).fragment(return_type="fragment", **{k: v for k, v in _frag_kwargs(sc).items() if k != "monoisotopic"})
-            if not (len(masses) == len(mzs) == len(labels) == len(ml) == len(zl) == len(cached) == len(frs)):
-                fn.why = "projection lengths differ"
+            masses = fragment(ann.copy(), return_type="mass", **shared)
+            mzs = fragment(ann.copy(), return_type="mz", **shared)
+            labels = fragment(ann.copy(), return_type="label", **shared)
+            ml = fragment(ann.copy(), return_type="mass-label", **shared)
+            zl = fragment(ann.copy(), return_type="mz-label", **shared)
+            cached = Fragmenter(ann.copy(), sc["mono"]).fragment(return_type="fragment", **{k: v for k, v in shared.items() if k != "monoisotopic"})
+            again = fragment(ann.copy(), return_type="fragment", **shared)
+            if not (len(masses) == len(mzs) == len(labels) == len(ml) == len(zl) == len(cached) == len(frs) == len(again)):
+                fn.why = "projection lengths differ (same argument objects, later calls): " + str([len(x) for x in (frs, masses, mzs, labels, ml, zl, cached, again)])
+                return False
+            if [(f.ion_type, f.start, f.end, f.charge, f.isotope, float(f.loss)) for f in again] != got_keys:
+                fn.why = "a repeated call with the same argument objects returns other ions"
                 return False
             for i, f in enumerate(frs):
                 props.append(SR.T(masses[i]) == SR.T(f.mass))
@@ -280,7 +287,7 @@ def main(p):
     class _KW(dict):
         pass
     kw = c04._frag_kwargs(sc)
-    K = lambda: c04._frag_kwargs(sc)     # fresh argument lists per call (fragment() appends to a caller's losses list: see C08)
+    K = lambda: kw                       # the same argument objects for every call (a caller reusing its loss list must get the same ions)
     has_static_term = any(t[0][0] in ("N-Term", "C-Term") for t in sc.get("static") or [])
     problems = []
     sites = set()
@@ -296,6 +303,12 @@ def main(p):
         masses = fragment(ann.copy(), return_type="mass", **K())
         mzs = fragment(ann.copy(), return_type="mz", **K())
         cached = Fragmenter(ann.copy(), sc["mono"]).fragment(return_type="fragment", **{k: v for k, v in K().items() if k != "monoisotopic"})
+        again = fragment(ann.copy(), return_type="fragment", **K())
+        lens = [len(x) for x in (frs, masses, mzs, labels, ml, zl, cached, again)]
+        if len(set(lens)) != 1 or sorted((f.ion_type, f.start, f.end, f.charge, f.isotope, float(f.loss)) for f in again) != got:
+            problems.append(f"calls with the same argument objects return different ions: counts {lens} (fragment, mass, mz, label, mass-label, mz-label, Fragmenter, fragment again)")
+            sites.add("other")
+            frs = []
         for i, f in enumerate(frs):
             m_lib = pt.mass(f.sequence, charge=f.charge, ion_type=f.ion_type, monoisotopic=sc["mono"], isotope=f.isotope, loss=f.loss)
             if abs(f.mass - m_lib) > tol and not (c04.F_STATIC_TERM in excl and has_static_term):
